@@ -666,6 +666,19 @@ struct World
             dec[N(0)] = std::make_unique<Decoder>();
         else if (op == "DFEED")
             feed(N(0), B(0));
+        else if (op == "DNULL")
+        {
+            // decode(nullptr, n): no data - nothing is returned, nothing changes
+            if (!dec.count(N(0)))
+                dec[N(0)] = std::make_unique<Decoder>();
+            auto res = dec[N(0)]->decode(nullptr, static_cast<size_t>(N(1)));
+            long long pc = -1, pb = -1;
+#ifdef ASAM_CMP_VERIF
+            pc = static_cast<long long>(dec[N(0)]->verifPendingCount());
+            pb = static_cast<long long>(dec[N(0)]->verifPendingBytes());
+#endif
+            out << "N " << res.size() << " " << pc << " " << pb << "\n";
+        }
         else if (op == "DCOPY")
         {
             if (dec.count(N(1)))
@@ -857,8 +870,13 @@ struct World
             Packet& p = pk[N(0)];
             if (p.payload)
             {
-                p.payload->setMessageType(static_cast<CmpHeader::MessageType>(N(1) & 255));
-                p.payload->setRawPayloadType(static_cast<uint8_t>(N(2)));
+                if (N(3) == 1)
+                    p.payload->setType(PayloadType(static_cast<CmpHeader::MessageType>(N(1) & 255), static_cast<uint8_t>(N(2))));
+                else
+                {
+                    p.payload->setMessageType(static_cast<CmpHeader::MessageType>(N(1) & 255));
+                    p.payload->setRawPayloadType(static_cast<uint8_t>(N(2)));
+                }
             }
         }
         else if (op == "YCOPY")
@@ -932,6 +950,20 @@ struct World
             unsigned long long ret = 0;
             int hasRet = 0;
             bool ok = accDispatch(static_cast<int>(N(0)), static_cast<int>(N(1)), mem, static_cast<unsigned long long>(N(2)), static_cast<unsigned long long>(N(3)), ret, hasRet);
+            if (!ok)
+                out << "A ?\n";
+            else if (hasRet)
+                out << "A " << hex(mem) << " " << ret << "\n";
+            else
+                out << "A " << hex(mem) << "\n";
+        }
+        else if (op == "FWD")
+        {
+            // FWD <wrapper-id> <arg> <arg2> x<image of the payload>
+            Bytes mem(B(0));
+            unsigned long long ret = 0;
+            int hasRet = 0;
+            bool ok = fwdDispatch(static_cast<int>(N(0)), mem, static_cast<unsigned long long>(N(1)), static_cast<unsigned long long>(N(2)), ret, hasRet);
             if (!ok)
                 out << "A ?\n";
             else if (hasRet)
